@@ -72,7 +72,7 @@ Proof. unfold starts. apply flat_map_app. Qed.
 Lemma reply_of_props k o r w : reply_of k o = Some (r, w) ->
   r = fst k /\ w_mid w = snd k /\ is_ackrst (w_type w) = true /\ exists t, o = Send t r w.
 Proof.
-  destruct o as [t r' w'| |]; simpl; try discriminate.
+  destruct o as [t r' w'| | |]; simpl; try discriminate.
   destruct ((r' =? fst k) && (w_mid w' =? snd k) && is_ackrst (w_type w')) eqn:E; [|discriminate].
   intros H; inversion H; subst. apply andb_true_iff in E as [E E3]. apply andb_true_iff in E as [E1 E2].
   apply Z.eqb_eq in E1, E2. repeat split; auto. exists t; reflexivity.
@@ -178,11 +178,46 @@ Proof.
   simpl. symmetry; apply option_map_id; reflexivity.
 Qed.
 
-Lemma ext_send_via k r w s : is_ackrst (w_type w) = false -> Ext [] k s (_send_via_transport r w s).
+Lemma ext_set_refused k v s : Ext [] k s (set_refused v s). Proof. frame. Qed.
+Lemma ext_emit_refused k r s : Ext [] k s (emit (Refused (now s) r) s).
+Proof.
+  split; auto. exists [Refused (now s) r]. repeat split; auto.
+  simpl. symmetry; apply option_map_id; reflexivity.
+Qed.
+
+Lemma ext_stop_incoming k ik sid s : Ext [] k s (stop_incoming ik sid s).
+Proof. unfold stop_incoming. eapply Ext_trans0; [apply ext_set_incoming | apply ext_set_waiting]. Qed.
+Lemma ext_fold {A} k (f : st -> A -> st) l :
+  (forall s a, Ext [] k s (f s a)) -> forall s, Ext [] k s (fold_left f l s).
+Proof.
+  intros H. induction l as [|a l IH]; intros s; simpl; [apply Ext_refl|].
+  eapply Ext_trans0; [apply H | apply IH].
+Qed.
+Lemma ext_tm_dispatch_error k r s : Ext [] k s (tm_dispatch_error r s).
+Proof.
+  unfold tm_dispatch_error. apply ext_fold. intros s0 e.
+  destruct (snd (fst e) =? r); [apply ext_stop_incoming | apply Ext_refl].
+Qed.
+
+Lemma ext_mm_dispatch_error k r s : Ext [] k s (mm_dispatch_error r s).
+Proof.
+  unfold mm_dispatch_error. eapply Ext_trans0; [|apply ext_set_backlogs].
+  eapply Ext_trans0; [apply ext_tm_dispatch_error|]. apply ext_fold. intros s0 e.
+  destruct (fst (fst e) =? r); [|apply Ext_refl]. eapply Ext_trans0; [apply ext_set_exchanges | apply ext_cancel].
+Qed.
+Lemma ext_refusal k r s : Ext [] k s (refusal r s).
+Proof.
+  unfold refusal. destruct (is_refused r s); [|apply Ext_refl].
+  eapply Ext_trans0; [apply ext_emit_refused | apply ext_mm_dispatch_error].
+Qed.
+
+Lemma ext_send_log k r w s : is_ackrst (w_type w) = false -> Ext [] k s (send_log r w s).
 Proof.
   intros H. split; auto. exists [Send (now s) r w]. repeat split; auto.
   simpl. symmetry; apply option_map_id. intros a. unfold last_reply; simpl. rewrite H, andb_false_r. reflexivity.
 Qed.
+Lemma ext_send_via k r w s : is_ackrst (w_type w) = false -> Ext [] k s (_send_via_transport r w s).
+Proof. intros H. unfold _send_via_transport. eapply Ext_trans0; [apply ext_send_log; exact H | apply ext_refusal]. Qed.
 
 Lemma ext_add_exchange k r w s : w_type w = CON -> Ext [] k s (_add_exchange r w s).
 Proof.
@@ -196,12 +231,12 @@ Proof.
 Qed.
 
 (* store + send: the remembered reply of k follows the log *)
-Lemma ext_store_send k r w s :
-  Ext [] k s (_send_via_transport r w (_store_response_for_duplicates r w s)).
+Lemma ext_store_log k r w s :
+  Ext [] k s (send_log r w (_store_response_for_duplicates r w s)).
 Proof.
   unfold _store_response_for_duplicates.
   destruct (is_ackrst (w_type w)) eqn:Ea; simpl.
-  2:{ apply ext_send_via; exact Ea. }
+  2:{ apply ext_send_log; exact Ea. }
   split; try reflexivity.
   - destruct (aget key_eqb (r, w_mid w) (recent s)); auto.
   - destruct (aget key_eqb (r, w_mid w) (recent s)); reflexivity.
@@ -224,6 +259,10 @@ Proof.
         -- symmetry; apply option_map_id; reflexivity.
 Qed.
 
+Lemma ext_store_send k r w s :
+  Ext [] k s (_send_via_transport r w (_store_response_for_duplicates r w s)).
+Proof. unfold _send_via_transport. eapply Ext_trans0; [apply ext_store_log | apply ext_refusal]. Qed.
+
 Lemma ext_send_initially k r w mon s : Ext [] k s (_send_initially r w mon s).
 Proof.
   unfold _send_initially. destruct (w_type w) eqn:Et; try apply ext_store_send.
@@ -238,7 +277,7 @@ Lemma ext_continue_backlog_loop k fuel r s : Ext [] k s (_continue_backlog_loop 
 Proof.
   revert s. induction fuel as [|fuel IH]; intros s; simpl; [apply Ext_refl|].
   destruct (has_exchange_with r s); [apply Ext_refl|].
-  destruct (aget Z.eqb r (backlogs s)) as [[|w rest]|]; [apply ext_set_backlogs | | apply ext_emit_exn].
+  destruct (aget Z.eqb r (backlogs s)) as [[|w rest]|]; [apply ext_set_backlogs | | apply Ext_refl].
   eapply Ext_trans0; [|apply IH].
   eapply Ext_trans0; [apply ext_set_backlogs | apply ext_send_initially].
 Qed.
@@ -253,20 +292,6 @@ Proof.
   eapply Ext_trans0; [apply ext_set_exchanges | apply ext_cancel].
 Qed.
 
-Lemma ext_stop_incoming k ik sid s : Ext [] k s (stop_incoming ik sid s).
-Proof. unfold stop_incoming. eapply Ext_trans0; [apply ext_set_incoming | apply ext_set_waiting]. Qed.
-Lemma ext_fold {A} k (f : st -> A -> st) l :
-  (forall s a, Ext [] k s (f s a)) -> forall s, Ext [] k s (fold_left f l s).
-Proof.
-  intros H. induction l as [|a l IH]; intros s; simpl; [apply Ext_refl|].
-  eapply Ext_trans0; [apply H | apply IH].
-Qed.
-Lemma ext_tm_dispatch_error k r s : Ext [] k s (tm_dispatch_error r s).
-Proof.
-  unfold tm_dispatch_error. apply ext_fold. intros s0 e.
-  destruct (snd (fst e) =? r); [apply ext_stop_incoming | apply Ext_refl].
-Qed.
-
 Lemma ext_retransmit k r w timeout counter s : w_type w = CON -> Ext [] k s (_retransmit r w timeout counter s).
 Proof.
   intros Hc. unfold _retransmit. destruct (aget key_eqb (r, w_mid w) (exchanges s)); [|apply ext_emit_exn].
@@ -274,11 +299,11 @@ Proof.
   assert (E1 : Ext [] k s s1) by (subst s1; eapply Ext_trans0; [apply ext_set_exchanges | apply ext_cancel]).
   destruct (counter <? MAX_RETRANSMIT).
   - unfold _schedule_retransmit.
-    destruct (call_later (timeout * 2) (TRetransmit r w (timeout * 2) (counter + 1)) (_send_via_transport r w s1)) as [s2 h] eqn:E.
+    destruct (call_later (timeout * 2) (TRetransmit r w (timeout * 2) (counter + 1)) s1) as [s2 h] eqn:E.
     eapply Ext_trans0; [exact E1|].
-    eapply Ext_trans0; [apply ext_send_via; rewrite Hc; reflexivity|].
+    eapply Ext_trans0; [|apply ext_send_via; rewrite Hc; reflexivity].
     eapply Ext_trans0; [|apply ext_set_exchanges].
-    replace s2 with (fst (call_later (timeout * 2) (TRetransmit r w (timeout * 2) (counter + 1)) (_send_via_transport r w s1))) by (rewrite E; reflexivity).
+    replace s2 with (fst (call_later (timeout * 2) (TRetransmit r w (timeout * 2) (counter + 1)) s1)) by (rewrite E; reflexivity).
     apply ext_call_later. exact Hc.
   - destruct (aget Z.eqb r (backlogs s1)).
     + eapply Ext_trans0; [exact E1|]. eapply Ext_trans0; [apply ext_set_backlogs | apply ext_tm_dispatch_error].
@@ -727,7 +752,7 @@ Definition fresh_for (k : Z * Z) (s : st) (e : event) : Prop :=
 Lemma step_spec s e : Inv s ->
   Inv (step s e) /\ forall k, ~ fresh_for k s e -> R k s (step s e).
 Proof.
-  intros HI. destruct e as [m | | d | sid a | sid x]; simpl.
+  intros HI. destruct e as [m | | d | sid a | sid x | r0 b0 | r0]; simpl.
   - destruct (is_request (i_code m)) eqn:Q.
     + destruct (aget key_eqb (msg_key m) (recent s)) as [v|] eqn:G.
       * rewrite (dispatch_dup m s v Q G).
@@ -749,6 +774,8 @@ Proof.
   - destruct (advance_spec d s HI) as [A B]. split; [exact A | intros k _; apply B].
   - split; [apply (Inv_ext s); [exact HI | intros k; exists []; apply ext_handler_respond] | intros k _; apply Ext_R, ext_handler_respond].
   - split; [apply (Inv_ext s); [exact HI | intros k; exists []; apply ext_handler_raise] | intros k _; apply Ext_R, ext_handler_raise].
+  - split; [apply (Inv_ext s); [exact HI | intros k; exists []; apply ext_set_refused] | intros k _; apply Ext_R, ext_set_refused].
+  - split; [apply (Inv_ext s); [exact HI | intros k; exists []; apply ext_mm_dispatch_error] | intros k _; apply Ext_R, ext_mm_dispatch_error].
 Qed.
 
 (* first arrival *)
@@ -774,16 +801,20 @@ Lemma set_outs_nil s : set_outs (outs s ++ []) s = s.
 Proof. rewrite app_nil_r. destruct s; reflexivity. Qed.
 
 Lemma dup_exact s m v : Inv s -> is_request (i_code m) = true -> aget key_eqb (msg_key m) (recent s) = Some v ->
+  is_refused (i_remote m) s = false ->
   step s (Recv m) =
   set_outs (outs s ++ match i_type m, v with CON, Some (r, w) => [Send (now s) r w] | _, _ => [] end) s.
 Proof.
-  intros (_ & _ & I3 & _ & _) Q G. simpl. rewrite (dispatch_dup m s v Q G).
+  intros (_ & _ & I3 & _ & _) Q G NR. simpl. rewrite (dispatch_dup m s v Q G).
   destruct (i_type m); try (symmetry; apply set_outs_nil).
   destruct v as [[r w]|]; [|symmetry; apply set_outs_nil].
   destruct (I3 _ _ _ G) as (E1 & E2 & E3).
   assert (Hk : (r, w_mid w) = msg_key m) by (destruct (msg_key m); simpl in *; congruence).
+  assert (Hr : r = i_remote m) by (rewrite E1; reflexivity).
+  assert (T : _send_via_transport r w s = set_outs (outs s ++ [Send (now s) r w]) s).
+  { unfold _send_via_transport, refusal, send_log, emit, is_refused in *. simpl. rewrite Hr, NR. reflexivity. }
   unfold _send_initially, _store_response_for_duplicates.
-  destruct (w_type w); simpl in E3; try discriminate; simpl; rewrite Hk, G, (areplace_same _ _ _ G), set_recent_same; reflexivity.
+  destruct (w_type w); simpl in E3; try discriminate; simpl; rewrite Hk, G, (areplace_same _ _ _ G), set_recent_same; exact T.
 Qed.
 
 (* ================================================================== Part 4: traces *)
@@ -798,7 +829,7 @@ Lemma step_mono s e : Inv s ->
 Proof.
   intros HI. destruct (step_spec s e HI) as [_ H].
   assert (X : exists k, ~ fresh_for k s e).
-  { destruct e as [m| | | |]; [exists (i_remote m + 1, i_mid m) | exists (0, 0) ..]; intros (m' & E & _ & K & _); inversion E; subst.
+  { destruct e as [m| | | | | |]; [exists (i_remote m + 1, i_mid m) | exists (0, 0) ..]; intros (m' & E & _ & K & _); inversion E; subst.
     unfold msg_key in K. inversion K. lia. }
   destruct X as [k NF]. destruct (H k NF) as (new & O & N & T & _). exists new. auto.
 Qed.
@@ -873,7 +904,7 @@ Inductive spaced (L : Z) : list Z -> Prop :=
 
 Lemma fresh_dec k s e : fresh_for k s e \/ ~ fresh_for k s e.
 Proof.
-  destruct e as [m| | | |]; try (right; intros (m' & E & _); discriminate).
+  destruct e as [m| | | | | |]; try (right; intros (m' & E & _); discriminate).
   destruct (is_request (i_code m)) eqn:Q; [|right; intros (m' & E & Q' & _); inversion E; subst; congruence].
   destruct (key_eqb (msg_key m) k) eqn:K.
   - apply key_eqb_eq in K. destruct (aget key_eqb k (recent s)) eqn:G.
@@ -911,19 +942,20 @@ Lemma dup_con_reanswered_lemma s0 m evs dup : Inv s0 ->
   let s1 := step s0 (Recv m) in let s2 := run s1 evs in
   now s2 < now s0 + EXCHANGE_LIFETIME ->
   is_request (i_code dup) = true -> msg_key dup = msg_key m ->
+  is_refused (i_remote dup) s2 = false ->
   step s2 (Recv dup) =
   set_outs (outs s2 ++ match i_type dup, last_reply (msg_key m) (log_since s0 s2) None with
                        | CON, Some (r, w) => [Send (now s2) r w]
                        | _, _ => [] end) s2.
 Proof.
-  intros HI Q G s1 s2 Hn Qd Kd.
+  intros HI Q G s1 s2 Hn Qd Kd NR.
   destruct (step_fresh s0 m HI Q G) as (new & q & O & N & T & S & A & F). fold s1 in O, N, A, F.
   assert (HI1 : Inv s1) by apply (step_spec s0 (Recv m) HI).
   destruct (alive_run (msg_key m) evs s1 _ _ q HI1 A F Hn) as (S2 & A2 & F2). fold s2 in S2, A2, F2.
   assert (L : log_since s0 s2 = new ++ log_since s1 s2).
   { apply log_since_app. unfold s2. rewrite (run_outs evs s1 HI1), O. apply app_assoc_reverse. }
   rewrite L, last_reply_app, <- Kd.
-  apply dup_exact; [apply run_inv; exact HI1 | exact Qd | rewrite Kd; exact A2].
+  apply dup_exact; [apply run_inv; exact HI1 | exact Qd | rewrite Kd; exact A2 | exact NR].
 Qed.
 
 Lemma within_lifetime_is_duplicate_lemma s0 m evs : Inv s0 ->
@@ -1008,3 +1040,89 @@ Lemma stored_reply_wellformed_lemma mid0 u evs k r w :
   aget key_eqb k (recent (run (init mid0 u) evs)) = Some (Some (r, w)) ->
   r = fst k /\ w_mid w = snd k /\ is_ackrst (w_type w) = true.
 Proof. intros H. destruct (reachable_inv mid0 u evs) as (_ & _ & I3 & _). eapply I3; exact H. Qed.
+
+(* ------------------------------------------------------------------ round 5: lifetime with copies, keys that did not arrive *)
+(* copies neither extend nor shorten the lifetime: inside it, the one expiry timer of the key is the one armed at first arrival *)
+Lemma expiry_fixed_at_first_arrival_lemma s0 m evs : Inv s0 ->
+  is_request (i_code m) = true -> aget key_eqb (msg_key m) (recent s0) = None ->
+  let s2 := run (step s0 (Recv m)) evs in
+  now s2 < now s0 + EXCHANGE_LIFETIME ->
+  exists q, In (now s0 + EXCHANGE_LIFETIME, q, msg_key m) (forgets s2)
+    /\ forall D' q', In (D', q', msg_key m) (forgets s2) -> D' = now s0 + EXCHANGE_LIFETIME.
+Proof.
+  intros HI Q G s2 Hn.
+  destruct (step_fresh s0 m HI Q G) as (new & q & O & N & T & S & A & F).
+  assert (HI1 : Inv (step s0 (Recv m))) by apply (step_spec s0 (Recv m) HI).
+  destruct (alive_run (msg_key m) evs _ _ _ q HI1 A F Hn) as (_ & _ & F2). fold s2 in F2.
+  exists q. split; [exact F2|]. intros D' q' H.
+  assert (HI2 : Inv s2) by (apply run_inv; exact HI1). destruct HI2 as (_ & ND & _).
+  assert (E : (D', q') = (now s0 + EXCHANGE_LIFETIME, q)) by (eapply nodup_key_unique; eauto).
+  inversion E; reflexivity.
+Qed.
+
+(* evs1 arbitrary (copies included) inside the lifetime, evs2 (no arrival of the key) carries the clock past it: forgotten *)
+Lemma forgotten_after_lifetime_lemma s0 m evs1 evs2 : Inv s0 ->
+  is_request (i_code m) = true -> aget key_eqb (msg_key m) (recent s0) = None ->
+  let s2 := run (step s0 (Recv m)) evs1 in
+  now s2 < now s0 + EXCHANGE_LIFETIME ->
+  Forall (no_arrival (msg_key m)) evs2 ->
+  let s3 := run s2 evs2 in
+  now s0 + EXCHANGE_LIFETIME < now s3 ->
+  aget key_eqb (msg_key m) (recent s3) = None.
+Proof.
+  intros HI Q G s2 Hn Hev s3 Hl.
+  destruct (expiry_fixed_at_first_arrival_lemma s0 m evs1 HI Q G Hn) as (q & F & _). fold s2 in F.
+  assert (HI2 : Inv s2) by (apply run_inv; apply (step_spec s0 (Recv m) HI)).
+  destruct (expiry_exact_lemma (msg_key m) evs2 s2 _ q HI2 F Hev) as [(_ & Hle & _) | (Hg & _)]; [unfold s3 in Hl; lia | exact Hg].
+Qed.
+
+(* a key of which no request-coded datagram arrives stays unknown and is never started, whatever else happens
+   (other endpoints using the same message id, timers, handlers, transport errors) *)
+Lemma not_arrived_stays_unknown_lemma k evs : forall s, Inv s -> aget key_eqb k (recent s) = None ->
+  Forall (no_arrival k) evs ->
+  aget key_eqb k (recent (run s evs)) = None /\ starts k (log_since s (run s evs)) = [].
+Proof.
+  induction evs as [|e evs IH]; intros s HI G Hev.
+  - simpl. rewrite (log_since_app s s []) by (symmetry; apply app_nil_r). auto.
+  - inversion Hev as [|? ? He Hev']; subst. rewrite (log_since_cons e evs s HI). simpl.
+    destruct (step_spec s e HI) as [HI1 HR]. destruct (HR k (no_arrival_not_fresh k s e He)) as (new & O & _ & _ & S & A).
+    rewrite G in A. destruct (IH _ HI1 A Hev') as (G2 & S2).
+    rewrite (log_since_app _ _ _ O), starts_app, S, S2. auto.
+Qed.
+
+Lemma Ext_present sk k s s' v : Ext sk k s s' -> aget key_eqb k (recent s) = Some v ->
+  exists new, outs s' = outs s ++ new /\ starts k new = sk
+    /\ aget key_eqb k (recent s') = Some (last_reply k new v) /\ forgets s' = forgets s.
+Proof.
+  intros [_ F _ (new & O & _ & S & A)] G. exists new. rewrite A, G. auto.
+Qed.
+
+(* a datagram with another key never removes or resets the entry of k and starts nothing for k *)
+Lemma other_keys_keep_entry_lemma s m k v : Inv s -> msg_key m <> k ->
+  aget key_eqb k (recent s) = Some v ->
+  exists new, outs (step s (Recv m)) = outs s ++ new /\ starts k new = [] /\
+    aget key_eqb k (recent (step s (Recv m))) = Some (last_reply k new v) /\
+    forall D q, In (D, q, k) (forgets s) -> In (D, q, k) (forgets (step s (Recv m))).
+Proof.
+  intros HI N G. simpl.
+  destruct (is_request (i_code m)) eqn:Q.
+  - destruct (aget key_eqb (msg_key m) (recent s)) as [v0|] eqn:G0.
+    + rewrite (dispatch_dup m s v0 Q G0).
+      assert (E : Ext [] k s (match i_type m, v0 with CON, Some (r, w) => _send_initially r w false s | _, _ => s end)).
+      { destruct (i_type m); try apply Ext_refl. destruct v0 as [[r w]|]; [apply ext_send_initially | apply Ext_refl]. }
+      destruct (Ext_present _ _ _ _ _ E G) as (new & O & S & A & F). exists new. rewrite F. auto.
+    + rewrite (dispatch_fresh m s Q G0).
+      pose proof (ext_dispatch_rest k m (insert_key (msg_key m) s)) as E. rewrite rest_sk_other in E by exact N.
+      assert (G1 : aget key_eqb k (recent (insert_key (msg_key m) s)) = Some v).
+      { unfold insert_key; simpl. rewrite aget_app, G. reflexivity. }
+      destruct (Ext_present _ _ _ _ _ E G1) as (new & O & S & A & F). exists new. rewrite F.
+      split; [exact O|]. split; [exact S|]. split; [exact A|].
+      intros D q H. unfold insert_key; simpl. apply in_app_iff; left; exact H.
+  - rewrite (dispatch_nonreq m s Q).
+    pose proof (ext_dispatch_rest k m s) as E. rewrite rest_sk_nonreq in E by exact Q.
+    destruct (Ext_present _ _ _ _ _ E G) as (new & O & S & A & F). exists new. rewrite F. auto.
+Qed.
+
+(* the per-event frame: any event that is not a first arrival of k *)
+Lemma event_frame_lemma s e k : Inv s -> ~ fresh_for k s e -> R k s (step s e).
+Proof. intros HI. apply (step_spec s e HI). Qed.
